@@ -398,7 +398,7 @@ func (g *goGen) genCall(n ECall) goVal {
 		}
 		et := g.x.prog.typeByName(ts.V)
 		return goVal{code: fmt.Sprintf("%s.Data().([]%s)[int(%s)]", tensorOf(arg(0)), ts.V, g.asInt(arg(2))), t: et}
-	case "fresh", "wf", "isdense":
+	case "fresh", "wf", "isdense", "allocated":
 		// not observable on the concrete run; treat as satisfied
 		return goVal{code: "true", t: types.Typ[types.Bool]}
 	case "nelems":
